@@ -13,13 +13,18 @@ Clause → theorem (model: `Model/AndOr.lean`, tied to contours.py by the bit-ex
 check in `harness/c04.py`)
   searched point lies on its ray (distance >= 0.1*max_distance)  search_on_ray
   the returned vector is the one the returned pe was counted at  search_returns_evaluated_point
-  pe = fraction exceeding in both / in at least one, strict `>`   search_returns_evaluated_point,
+  pe = fraction exceeding in both / in at least one, strict `>`   search_returns_evaluated_point (division form; for an
+                                                                  empty sample it is the totalised 0/0 = 0),
+                                                                  search_ray_facts (pe·n = count, n ≠ 0),
                                                                   exceed_counts_strict
   no warning  ⇒  |pe - alpha| <= allowed_error * alpha            search_precise_or_warned
   warning  ⇔  all max_iterations iterations used                  search_warned_iff
   a point is returned for 0 <= allowed_error < 1                  search_returns_point
   (allowed_error >= 1, outside the quantifier: no vector bound)   search_needs_err_lt_one
   one searched point per theta, in order                          searchRays_spec
+  ALL per-ray clauses lifted to EVERY searched point of the contour functions the driver runs
+  (non-empty sample, alpha > 0, constants as in the code)          and_contour_points, or_contour_points
+                                                                  (RayFacts, search_ray_facts)
   AND: searched points then (0,0), |thetas|+1 rows                and_closure
   OR: (0,y_last),(0,0),(x_first,0) appended                       or_closure, or_contour_spec
   OR: beyond 1.1*max dropped, never altered                       or_filter_sublist, or_contour_spec (any factor),
@@ -166,7 +171,10 @@ theorem searchRay_ok (k : SearchConst α) (ofN : Nat → α) (isOr : Bool) (samp
 omit [IsStrictOrderedRing α] in
 /-- **the returned vector is the one at which the returned pe was computed, and it lies on
 its ray**: `(x, y) = (c*d, s*d)` and `pe` is the exceedance fraction counted at exactly
-`(x, y)` (not at the next iterate). -/
+`(x, y)` (not at the next iterate).
+Totalisation note: for an EMPTY sample (`ofN 0 = 0`) the right-hand side is `0 / 0 = 0` in a field,
+so the equation then says nothing about a fraction (numpy gives NaN there). The division-free form
+under the hypothesis `ofN n ≠ 0` is `search_ray_facts` (`pe · n = count`). -/
 theorem search_returns_evaluated_point (k : SearchConst α) (ofN : Nat → α) (isOr : Bool)
     (sample : List (α × α)) (alpha err maxDist c s : α) (r : RayResult α)
     (h : searchRay k ofN isOr sample alpha err maxDist c s = .ok r) :
@@ -481,6 +489,83 @@ theorem or_contour_drops_beyond_1_1 (k : SearchConst α) (ofN : Nat → α) (sam
   obtain ⟨hsub, hmem⟩ := or_filter_sublist (11 / 10 * mx) (11 / 10 * my) (rs.map fun r => (r.x, r.y))
   exact ⟨mx, my, _, f, l, hmx, hmy, hsub, hmem, hf, hl, hc⟩
 
+/-! ### the per-ray theorems lifted to every searched point of the AND / OR contour -/
+
+/-- everything the property says about ONE searched point `r` of the ray with unit vector `(c, s)`:
+on the ray at distance `≥ (d0 - s0)·max_distance`; `pe` is the exceedance FRACTION counted at exactly
+`(r.x, r.y)` (stated without division: `pe · n = count`, for a non-empty sample); no warning ⇒
+within the allowed error; warning ⇔ all iterations used. -/
+def RayFacts (k : SearchConst α) (ofN : Nat → α) (isOr : Bool) (sample : List (α × α))
+    (alpha err maxDist c s : α) (r : RayResult α) : Prop :=
+  (∃ d, r.x = c * d ∧ r.y = s * d ∧ (k.d0 - k.s0) * maxDist ≤ d) ∧
+  r.pe * ofN sample.length = ofN ((if isOr then exceedOr else exceedAnd) sample r.x r.y) ∧
+  (r.warned = false → |r.pe - alpha| ≤ err * alpha) ∧
+  (r.warned = true ↔ r.iters = k.maxIter)
+
+/-- all per-ray clauses at once, for a non-empty sample (`ofN n ≠ 0`: with an empty sample `pe` would be
+the totalised `0/0 = 0`, see `search_returns_evaluated_point`). -/
+theorem search_ray_facts (k : SearchConst α) (ofN : Nat → α) (isOr : Bool)
+    (sample : List (α × α)) (alpha err maxDist c s : α) (r : RayResult α)
+    (hn : ofN sample.length ≠ 0) (halpha : 0 < alpha) (hmax : 1 ≤ k.maxIter)
+    (hhalf : k.half + k.half = 1) (hs0 : 0 < k.s0) (hmd : 0 ≤ maxDist)
+    (h : searchRay k ofN isOr sample alpha err maxDist c s = .ok r) :
+    RayFacts k ofN isOr sample alpha err maxDist c s r := by
+  refine ⟨search_on_ray k ofN isOr sample alpha err maxDist c s r hhalf hs0 hmd h, ?_,
+    search_precise_or_warned k ofN isOr sample alpha err maxDist c s r halpha hmax h,
+    (search_warned_iff k ofN isOr sample alpha err maxDist c s r hmax h).1⟩
+  obtain ⟨_, _, _, hpe⟩ := search_returns_evaluated_point k ofN isOr sample alpha err maxDist c s r h
+  rw [hpe, div_mul_cancel₀ _ hn]
+
+/-- **every searched point of an AndContour**: the contour has `|thetas| + 1` rows, the last is `(0,0)`,
+and row `i < |thetas|` is the searched point of ray `i`, which lies on its ray, whose `pe` is the fraction
+of sample points exceeding it in BOTH variables, and — unless that ray warned — `|pe - alpha| ≤
+allowed_error·alpha`. (`andContour` is the function the driver op `c04and` runs.) -/
+theorem and_contour_points (k : SearchConst α) (ofN : Nat → α) (sample : List (α × α))
+    (alpha err maxDist : α) (dirs : List (α × α)) (coords : List (α × α)) (rs : List (RayResult α))
+    (hn : ofN sample.length ≠ 0) (halpha : 0 < alpha) (hmax : 1 ≤ k.maxIter)
+    (hhalf : k.half + k.half = 1) (hs0 : 0 < k.s0) (hmd : 0 ≤ maxDist)
+    (h : andContour k ofN sample alpha err maxDist dirs = .ok (coords, rs)) :
+    coords.length = dirs.length + 1 ∧ coords.getLast? = some (0, 0) ∧
+      ∀ i (hi : i < dirs.length), ∃ r, rs[i]? = some r ∧ coords[i]? = some (r.x, r.y) ∧
+        RayFacts k ofN false sample alpha err maxDist dirs[i].1 dirs[i].2 r := by
+  obtain ⟨hc, hlen, hlast, hrs⟩ := and_closure k ofN sample alpha err maxDist dirs coords rs h
+  obtain ⟨hl, hall⟩ := searchRays_spec k ofN false sample alpha err maxDist dirs rs hrs
+  refine ⟨hlen, hlast, fun i hi => ?_⟩
+  obtain ⟨r, hr, hray⟩ := hall i hi
+  refine ⟨r, hr, ?_, search_ray_facts k ofN false sample alpha err maxDist _ _ r hn halpha hmax hhalf
+    hs0 hmd hray⟩
+  rw [hc, List.getElem?_append_left (by simp [hl, hi]), List.getElem?_map, hr]
+  rfl
+
+/-- **every searched point of an OrContour that is kept**: the contour is the kept points followed by the
+documented closure, and every kept point is — unaltered — the searched point of some ray `i`, lies on that
+ray, its `pe` is the fraction of sample points exceeding it in AT LEAST ONE variable, and — unless that
+ray warned — `|pe - alpha| ≤ allowed_error·alpha`. (`orContour` with the factor pinned is what the
+driver op `c04or` runs; an empty sample is refused by `orContour`, `hn` only excludes `ofN n = 0`.) -/
+theorem or_contour_points (k : SearchConst α) (ofN : Nat → α) (sample : List (α × α))
+    (alpha err maxDist factor : α) (dirs : List (α × α)) (coords : List (α × α))
+    (rs : List (RayResult α))
+    (hn : ofN sample.length ≠ 0) (halpha : 0 < alpha) (hmax : 1 ≤ k.maxIter)
+    (hhalf : k.half + k.half = 1) (hs0 : 0 < k.s0) (hmd : 0 ≤ maxDist)
+    (h : orContour k ofN sample alpha err maxDist factor dirs = .ok (coords, rs)) :
+    ∃ kept f l, kept.head? = some f ∧ kept.getLast? = some l ∧
+      coords = kept ++ [(0, l.2), (0, 0), (f.1, 0)] ∧
+      ∀ p ∈ kept, ∃ i, ∃ hi : i < dirs.length, ∃ r, rs[i]? = some r ∧ p = (r.x, r.y) ∧
+        RayFacts k ofN true sample alpha err maxDist dirs[i].1 dirs[i].2 r := by
+  obtain ⟨mx, my, f, l, _, _, hrs, hf, hl, hc⟩ :=
+    or_contour_spec k ofN sample alpha err maxDist factor dirs coords rs h
+  obtain ⟨hlen, hall⟩ := searchRays_spec k ofN true sample alpha err maxDist dirs rs hrs
+  refine ⟨_, f, l, hf, hl, hc, fun p hp => ?_⟩
+  have hp' := ((or_filter_sublist (factor * mx) (factor * my) _).2 p).mp hp
+  obtain ⟨r, hr, rfl⟩ := List.mem_map.mp hp'.1
+  obtain ⟨i, hi, hri⟩ := List.mem_iff_getElem.mp hr
+  have hi' : i < dirs.length := by omega
+  obtain ⟨r', hr', hray⟩ := hall i hi'
+  rw [List.getElem?_eq_getElem hi, hri] at hr'
+  cases hr'
+  exact ⟨i, hi', r, by rw [List.getElem?_eq_getElem hi, hri], rfl,
+    search_ray_facts k ofN true sample alpha err maxDist _ _ r hn halpha hmax hhalf hs0 hmd hray⟩
+
 /-! ### exceedance counts are strict -/
 
 omit [Field α] [IsStrictOrderedRing α] in
@@ -517,6 +602,19 @@ example : searchRay kQ (fun n : Nat => (n : ℚ)) false [(1, 1), (3, 1)] (1 / 2)
 example : searchRay kQ (fun n : Nat => (n : ℚ)) false [(1, 1)] (1 / 2) (1 / 10) 10 1 0 =
     .ok { x := 5 / 4, y := 0, pe := 0, iters := 3, warned := true } := by
   norm_num [searchRay, kQ, searchLoop, searchInit, needMore, absv, searchStep, peAtRay, exceedAnd]
+
+/-- non-vacuity of `and_contour_points`: a one-ray AND contour that exists (non-empty sample, `alpha > 0`,
+`maxDist ≥ 0`; the conditions on the constants are shown for `kQ` below) -/
+example : andContour kQ (fun n : Nat => (n : ℚ)) [(1, 1), (3, 1)] (1 / 2) (1 / 10) 10 [(1, 0)] =
+    .ok ([(2, 0), (0, 0)], [{ x := 2, y := 0, pe := 1 / 2, iters := 1, warned := false }]) := by
+  norm_num [andContour, searchRays, andClose, searchRay, kQ, searchLoop, searchInit, needMore, absv,
+    searchStep, peAtRay, exceedAnd]
+
+/-- non-vacuity of `or_contour_points`: a one-ray OR contour that exists -/
+example : orContour kQ (fun n : Nat => (n : ℚ)) [(1, -1), (3, 1)] (1 / 2) (1 / 10) 10 (11 / 10) [(1, 0)] =
+    .ok ([(2, 0), (0, 0), (0, 0), (2, 0)], [{ x := 2, y := 0, pe := 1 / 2, iters := 1, warned := false }]) := by
+  norm_num [orContour, listMax, orKeep, orClose, searchRays, searchRay, kQ, searchLoop, searchInit,
+    needMore, absv, searchStep, peAtRay, exceedOr]
 
 example : orClose [((1 : ℚ), (2 : ℚ)), (3, 4)] = .ok [(1, 2), (3, 4), (0, 4), (0, 0), (1, 0)] := by
   simp [orClose]
